@@ -41,7 +41,7 @@ func (e respEnv) rpc() *Rpc {
 		case 1:
 			r.Header.Headers = []*goatorepo.KeyValue{{Key: "k", Value: "v"}}
 		case 2:
-			r.Header.Headers = []*goatorepo.KeyValue{{Key: "k-bin", Value: "!!"}}
+			r.Header.Headers = []*goatorepo.KeyValue{{Key: "k-bin", Value: badBinValue()}}
 		}
 	}
 	if e.Status >= 0 {
@@ -55,7 +55,7 @@ func (e respEnv) rpc() *Rpc {
 	case 1:
 		r.Trailer = &goatorepo.Trailer{}
 	case 2:
-		r.Trailer = &goatorepo.Trailer{Metadata: []*goatorepo.KeyValue{{Key: "t-bin", Value: "!!"}}}
+		r.Trailer = &goatorepo.Trailer{Metadata: []*goatorepo.KeyValue{{Key: "t-bin", Value: badBinValue()}}}
 	}
 	if e.Reset {
 		r.Reset_ = &goatorepo.Reset{Type: "RST_STREAM"}
